@@ -69,7 +69,8 @@ PROPS = {
         level_note="Reference semantics from net/netip with v4-mapped addresses unmapped. Where the statement leaves a case open (address inside the well-formed part of a partly malformed rule) nothing is asserted.",
         units=[
         unit("c12-rules", "route", ROUTE_COMMON + ["route/sched_test.go", "route/c12_test.go"], "^TestVerifC12", engines=SCHED),
-    ], layers={"quick": ["c12-rules"], "thorough": ["c12-rules"]}),
+        unit("c12-http", "proxy", PROXY_COMMON + ["proxy/c12_test.go"], "^TestVerifC12"),
+    ], layers={"quick": ["c12-rules", "c12-http"], "thorough": ["c12-rules", "c12-http"]}),
     "C07": dict(level="exploration", engine="benum",
         technique="bounded-exhaustive product of requests x route options through the real HTTPProxy + ReverseProxy to a recording upstream, reference rewrite on the escaped path",
         level_text="The full product of method x path (incl. %2F, %20, //) x query x header set x body shape x strip x prepend x host option x target query (36k quick, 72k thorough) and an upstream response matrix (status x headers x body shape x method) plus the no-route matrix are executed on the real HTTPProxy.ServeHTTP and httputil.ReverseProxy against a real loopback upstream; every observable (method, request-target, Host, headers, body, status) is compared with the statement's rewrite rules.",
